@@ -102,11 +102,27 @@ def parse_f(ans):
 def run_impl(c, agg="mean", fill=None):
     from arim.im import das
 
-    frame = fixtures.make_frame(c["tt"], c["t0"], c["dt"], c["tx"], c["rx"])
-    flaw = fixtures.make_focal_law(c["lt_tx"], c["lt_rx"], c["amp_tx"] if c["amp"] else None, c["amp_rx"] if c["amp"] else None, c["weights"])
     kw = dict(fillvalue=c["fill"] if fill is None else fill, interpolation=c["interp"])
     if agg != "mean":
         kw["aggregation"] = agg
+    import zlib
+    if c["weights"] is not None and np.asarray(c["tt"]).dtype.kind in "fc" and zlib.crc32(np.ascontiguousarray(c["tt"]).tobytes()) % 5 < 2:
+        # a live-imaging session: the same Frame and FocalLaw objects were used for an earlier image of other data with
+        # other weights; then the acquisition buffer was refilled in place and the weights re-assigned.  The image is
+        # that of the data and weights as they are now.
+        buf = np.array(c["tt"][::-1] * 3 + 1, copy=True)
+        frame = fixtures.make_frame(buf, c["t0"], c["dt"], c["tx"], c["rx"])
+        flaw = fixtures.make_focal_law(c["lt_tx"], c["lt_rx"], c["amp_tx"] if c["amp"] else None, c["amp_rx"] if c["amp"] else None,
+                                       np.asarray(c["weights"])[::-1] * 2 + 1)
+        try:
+            das.delay_and_sum(frame, flaw, **kw)
+        except Exception:
+            pass
+        frame.timetraces[...] = c["tt"]
+        flaw.timetrace_weights = np.array(c["weights"], copy=True)
+    else:
+        frame = fixtures.make_frame(c["tt"], c["t0"], c["dt"], c["tx"], c["rx"])
+        flaw = fixtures.make_focal_law(c["lt_tx"], c["lt_rx"], c["amp_tx"] if c["amp"] else None, c["amp_rx"] if c["amp"] else None, c["weights"])
     if c.get("prealloc"):
         dt = np.result_type(c["tt"], *( [c["amp_tx"]] if c["amp"] else []))
         res = np.full(c["lt_tx"].shape[0], 12345.0, dtype=dt)
